@@ -68,7 +68,7 @@ SPEC_DECISIONS = ["D18a 'the next operation with memory available succeeds' is c
                   "D18c a truncated or wrong body handed to the application as if complete is NOT a clean failure"]
 RUN_KW = {"timeout": 1800, "env": {"ASAN_OPTIONS": "detect_leaks=1:abort_on_error=0:exitcode=86:allocator_may_return_null=1:leak_check_at_exit=0"}}
 WRAPS = SIM_WRAPS + ["coap_malloc_type", "coap_realloc_type", "coap_free_type", "epoll_wait"]
-SCENARIOS = ["uri", "pdu", "rr", "b1", "b2", "obs", "setup", "osc", "h508"]
+SCENARIOS = ["uri", "pdu", "rr", "b1", "b2", "obs", "setup", "osc", "h508", "wkc", "b1raw", "b2raw", "obsblk", "cache", "async"]
 # visible outcome of every scenario when no request fails (k = 0)
 EXPECT0 = {
     "uri": "split0,u2o1,u2os0,p2o1,q2o1,ins1,olpdu1,path9,query8,str1111,rsz1,uri11,req0,rsp0,nack0,body0/0,put0/0",
@@ -80,6 +80,12 @@ EXPECT0 = {
     "setup": "up,down,req0,rsp0,nack0,body0/0,put0/0",
     "osc": "req1,rsp1,c2.05,nack0,body0/0,put0/0",
     "h508": "req1,rsp1,c5.08,nack0,body0/0,put0/0",
+    "wkc": "len1159,len393,len163,len0,req0,rsp4,c2.05,c2.05,c2.05,c2.05,nack0,body4/0,put0/0",
+    "b1raw": "req2,rsp10,c2.31,c2.31,c2.31,c2.31,c2.04,c2.31,c2.31,c2.31,c2.31,c2.04,nack0,body0/0,put2/0",
+    "b2raw": "req18,rsp3,c2.05,c2.05,c2.05,nack0,body3/0,put0/0",
+    "obsblk": "notify1,notify1,cancel1,notify0,req4,rsp4,c2.05,c2.05,c2.05,c2.05,nack0,body4/0,put0/0",
+    "cache": "ign1,ign1,cb1,key11,ent1,pdu313,bykey1,bypdu1,other1,req3,rsp3,c2.01,c2.05,c2.01,nack0,body0/0,put0/0",
+    "async": "pending1,req4,rsp2,c2.05,c2.05,nack0,body0/0,put0/0",
 }
 
 
